@@ -10,7 +10,7 @@ built from the INPUT tables and the literal numbers of the property text
 (500-base margin, 1.5 x average, default minimum = 2 * floor(avg / 32)),
 evaluated on the CODE's output: partition, margin, inside-access, sizes,
 completeness, contig rule.  No model code is involved in the oracle."""
-import os, re, json, itertools, multiprocessing
+import os, re, sys, json, itertools, multiprocessing, subprocess
 from fractions import Fraction
 import vlib
 from vlib import Err
@@ -35,6 +35,22 @@ def canonical(name):
 
 # ----------------------------------------------------------------------------
 # running the real code (in worker processes)
+
+
+def _ga_indexed(rows, mode):
+    """the bait table with a non-default row index, as a caller gets it from filtering (gaps: a sentinel row
+    before every row, masked away again) or re-labelling (permuted labels, same row order)"""
+    if mode == 'gaps':
+        padded = []
+        for r in rows:
+            padded.append(('chrSENTINEL', 0, 1, '__sentinel__'))
+            padded.append(tuple(r))
+        g = _ga(padded)
+        return g[g['gene'] != '__sentinel__']
+    g = _ga(rows)
+    n = len(g)
+    g.data.index = [(7 * i + 3) % n if n % 7 else n - 1 - i for i in range(n)]
+    return g
 
 
 def _ga(rows, with_gene=True):
@@ -91,7 +107,7 @@ def run_job(job):
     try:
         if kind == 'target':
             from cnvlib import target
-            b = _ga(job['baits'])
+            b = _ga_indexed(job['baits'], job['index']) if job.get('index') else _ga(job['baits'])
             kw = {}
             if job.get('avg') is not None:
                 kw['avg_size'] = job['avg']
@@ -99,10 +115,13 @@ def run_job(job):
             return canon(out)
         if kind == 'target_annot':
             from cnvlib import target
-            b = _ga(job['baits'])
+            b = _ga_indexed(job['baits'], job['index']) if job.get('index') else _ga(job['baits'])
             out = target.do_target(b, annotate=job['annot_path'], do_split=job['split'],
                                    do_short_names=job.get('short', False), avg_size=job['avg'])
             return canon(out)
+        if kind == 'annot_read':
+            from skgenome import tabio
+            return canon(tabio.read_auto(job['annot_path']))
         if kind == 'labels':
             from cnvlib import target
             return [str(x) for x in target.shorten_labels(job['labels'])]
@@ -241,16 +260,37 @@ def round_half_even(fr):
     return fl if fl % 2 == 0 else fl + 1
 
 
-def nbins_exact(span, avg):
-    """(max(1, round(span / avg)), ambiguous?) -- ambiguous when span / avg is within 1e-7 of
-    a tie and avg is not an integer (the float quotient may fall on either side)"""
+def float_quotient(span, avg):
+    """the code's quotient span / avg_size (one IEEE division) as an exact rational, after checking
+    the contract the theorem C12_nbins_float needs: it is a monotone rounding of the exact quotient
+    that never crosses a half-integer"""
     q = Fraction(span) / Fraction(avg)
+    qf = Fraction(span / avg)
+    fl = q.numerator // q.denominator
+    for k in (fl - 1, fl, fl + 1):
+        h = Fraction(2 * k + 1, 2)
+        if (q <= h and not qf <= h) or (h <= q and not h <= qf):
+            raise RuntimeError('float quotient crosses a tie: span=%r avg=%r' % (span, avg))
+    return q, qf
+
+
+def is_tie(fr):
+    return (2 * fr).denominator == 1 and (2 * fr).numerator % 2 == 1
+
+
+def nbins_exact(span, avg):
+    """(max(1, round_half_even(span / avg)) for the exact rational quotient, ambiguous?) -- ambiguous
+    exactly when the float quotient lands on a tie k + 1/2 that the exact quotient is not on
+    (C12_nbins_float: in every other case both round to the same integer)"""
+    q, qf = float_quotient(span, avg)
     n = max(1, round_half_even(q))
-    amb = False
-    if Fraction(avg).denominator != 1:
-        fr = q - (q.numerator // q.denominator)
-        amb = abs(fr - Fraction(1, 2)) < Fraction(1, 10 ** 7)
+    amb = is_tie(qf) and qf != q
     return n, amb
+
+
+def nbins_float(span, avg):
+    """what the code computes: int(round(span / avg)) or 1, round = half to even of the float quotient"""
+    return round_half_even(Fraction(span / avg)) or 1
 
 
 def check_tiling(bins, s, e, avg, what):
@@ -259,7 +299,7 @@ def check_tiling(bins, s, e, avg, what):
     n, amb = nbins_exact(span, avg)
     if not bins or bins[0][0] != s or bins[-1][1] != e or any(a[1] != b[0] for a, b in zip(bins, bins[1:])):
         return '%s %d-%d is not covered by consecutive abutting bins: %r' % (what, s, e, bins[:6])
-    ok_n = [n] if not amb else [n - 1, n, n + 1]
+    ok_n = [n] if not amb else [nbins_float(span, avg)]
     if len(bins) not in ok_n:
         return '%s %d-%d (length %d) is cut into %d bins, expected max(1, round(length/avg)) = %d' % (
             what, s, e, span, len(bins), n)
@@ -269,6 +309,38 @@ def check_tiling(bins, s, e, avg, what):
             return '%s %d-%d has an empty bin %d-%d' % (what, s, e, lo, hi)
         if not (span - k <= k * (hi - lo) <= span + k):
             return '%s %d-%d: bin %d-%d differs by more than one base from length/%d' % (what, s, e, lo, hi, k)
+    return None
+
+
+def sorter_key(label):
+    """skgenome.chromsort.sorter_chrom, restated (the property's "genomic order" across chromosomes)"""
+    chrom = label[3:] if label.lower().startswith('chr') else label
+    if chrom in ('X', 'Y'):
+        return (1000, chrom)
+    i = 0
+    while i < len(chrom) and chrom[i] in '0123456789':
+        i += 1
+    nums, chars = chrom[:i], chrom[i:]
+    n = int(nums) if nums else 0
+    if not chars:
+        return (n, '')
+    if len(chars) == 1:
+        return (2000 + n, chars)
+    return (3000 + n, chars)
+
+
+def order_oracle(out, disjoint=True):
+    """None or a message: chromosome keys never decrease along the output; when distinct names have
+    distinct keys, rows are in genomic order (key, then start; non-overlapping when `disjoint`)"""
+    keys = [sorter_key(r[0]) for r in out]
+    for a, b, ra, rb in zip(keys, keys[1:], out, out[1:]):
+        if a > b:
+            return 'chromosome %s (key %r) comes after %s (key %r)' % (rb[0], b, ra[0], a)
+    names = set(r[0] for r in out)
+    if len(set(sorter_key(c) for c in names)) == len(names):
+        for ra, rb in zip(out, out[1:]):
+            if ra[0] == rb[0] and (ra[2] > rb[1] if disjoint else ra[1] > rb[1]):
+                return 'rows %s:%d-%d and %s:%d-%d are not in genomic order' % (ra[0], ra[1], ra[2], rb[0], rb[1], rb[2])
     return None
 
 
@@ -282,6 +354,9 @@ def oracle_target(job, out):
         expc = [r[:3] for r in exp] if job.get('short') else exp
         if got != expc:
             return ('C12_target_nosplit', 'target without --split does not return the non-empty baits unchanged', exp)
+        msg = order_oracle(out, disjoint=False)
+        if msg:
+            return ('C12_block_order', msg, None)
         return None
     avg = job['avg'] if job.get('avg') is not None else 200 / 0.75
     A = by_chrom(nonempty)
@@ -296,6 +371,9 @@ def oracle_target(job, out):
     in_order = [c for c in A]
     if [c for c in in_order if c in O] != seen:
         return ('C12_target_split', 'chromosomes are not in the genomic order of the input: %r' % seen, in_order)
+    msg = order_oracle(out)
+    if msg:
+        return ('C12_block_order', msg, None)
     n = universe(baits, out)
     for c in set(A) | set(O):
         a = [(r[0], r[1]) for r in A.get(c, [])]
@@ -390,6 +468,9 @@ def oracle_antitarget(job, out):
     if extra:
         return ('C12_contigs', 'antitargets on contigs that are neither targeted nor canonically named '
                                '(or not accessible): %r' % extra, sorted(acc), csig)
+    msg = order_oracle(out)
+    if msg:
+        return ('C12_block_order', msg, None)
     n = universe(targets, out, [[c, lo, hi] for c in acc for lo, hi in acc[c]])
     for c in acc:
         o = [(r[0], r[1]) for r in O.get(c, [])]
@@ -706,10 +787,398 @@ def gen_target_case(rng):
     else:
         avg = rng.choice([scale, scale // 2 or 1, 267, 200, rng.randint(1, 3 * scale), 1, 2, 3])
     split = rng.random() < 0.75
+    if (avg is None or avg == 200 / 0.75) and rng.random() < 0.5:
+        # an isolated bait whose length is float-ambiguous for the default average (odd multiples of 400: the float
+        # quotient is exactly k + 1/2, the exact one is just below) or next to such a length
+        span = rng.choice([400, 1200, 2800, 4400, 5200]) + rng.choice([0, 0, 0, 1, -1])
+        top = max([r[2] for r in baits if r[0] == baits[0][0]] + [0])
+        baits.append([baits[0][0], top + 5000, top + 5000 + span, 'amb'])
     job = {'kind': 'target', 'baits': sort_table(baits), 'split': split, 'avg': avg}
     if avg is None and not split:
         pass
     return job
+
+
+def gen_antitarget_wide(rng):
+    """situations the first stream reaches rarely: targets on contigs absent from the access table,
+    access rows shorter than 2 * pad, baits abutting / straddling access edges, many tiny baits inside
+    one access row, extreme average / minimum sizes (integer averages 1..3, huge averages, a minimum
+    above every stretch, non-integer averages >= 4)"""
+    style = rng.choice(['chr', 'chr', 'plain'])
+    S = CHR_STYLE[style]
+    cls = rng.choice(['absent-contig', 'short-access', 'edge-baits', 'tiny-baits', 'avg-min-extremes'])
+    avg, mn = rng.choice([(1000, 100), (5000, None), (2000, 1), (400, 250)])
+    c1, c2, c3 = rng.sample(S['canon'], 3)
+    targets, access = [], []
+    if cls == 'absent-contig':
+        # c1 targeted and accessible, c2 targeted but absent from access, c3 accessible only
+        for c in (c1, c2):
+            for a, b in gen_intervals(rng, rng.randint(1, 4), 2000, 20000, 500):
+                targets.append([c, a, b, 'G%d' % rng.randint(1, 3)])
+        if rng.random() < 0.4:
+            nc = rng.choice(S['non'])
+            targets.append([nc, 3000, 3000 + rng.randint(1, 400), 'N'])       # targeted non-canonical, absent too
+        access = [[c1, 0, 30000], [c3, rng.choice([0, 1, 500]), rng.choice([1500, 9000, 30000])]]
+        if rng.random() < 0.5:
+            access.append([rng.choice(S['non']), 0, 30000])
+    elif cls == 'short-access':
+        pos = rng.choice([0, 1, 700])
+        for _ in range(rng.randint(2, 7)):
+            length = rng.choice([1, 2, MARGIN, 2 * MARGIN - 1, 2 * MARGIN, 2 * MARGIN + 1, 2 * MARGIN + (mn or 62) - 1,
+                                 2 * MARGIN + (mn or 62), rng.randint(1, 2 * MARGIN + 300), 4000])
+            access.append([c1, pos, pos + length])
+            pos += length + rng.choice([0, 1, 300, 5000])
+        targets.append([c1, rng.randint(0, pos), rng.randint(0, pos) + pos, 'G'])
+        targets[-1][2] = targets[-1][1] + rng.choice([0, 1, 120, 3000])
+        if rng.random() < 0.5:
+            targets.append([c1, pos + 20000, pos + 20100, 'far'])
+    elif cls == 'edge-baits':
+        lo_a = rng.choice([0, 1000, 150000])
+        hi_a = lo_a + rng.choice([8000, 20000, 60000])
+        access = [[c1, lo_a, hi_a]]
+        if rng.random() < 0.5:
+            access.append([c1, hi_a + rng.choice([0, 1, 999, 1000, 1001, 5000]), hi_a + 30000])
+        for _ in range(rng.randint(1, 5)):
+            edge = rng.choice([lo_a, hi_a])
+            d = rng.choice([0, 1, -1, MARGIN, -MARGIN, MARGIN + 1, -MARGIN - 1, 2 * MARGIN, -2 * MARGIN, 2 * MARGIN + 1,
+                            -2 * MARGIN - 1])
+            w = rng.choice([0, 1, 100, 2 * MARGIN, 3000])
+            how = rng.random()
+            if how < 0.4:
+                a, b = edge + d, edge + d + w             # starts at / near the edge
+            elif how < 0.8:
+                a, b = edge + d - w, edge + d             # ends at / near the edge
+            else:
+                a, b = edge - w, edge + w                 # straddles the edge
+            a = max(0, a)
+            b = max(a, b)
+            targets.append([c1, a, b, 'E%d' % rng.randint(1, 3)])
+    elif cls == 'tiny-baits':
+        lo_a = rng.choice([0, 5000])
+        n = rng.randint(15, 60)
+        pos = lo_a + rng.choice([0, 400, 1200])
+        for i in range(n):
+            w = rng.choice([1, 1, 5, 50, 120])
+            targets.append([c1, pos, pos + w, 'T%d' % (i % 4)])
+            pos += w + rng.choice([0, 1, 300, 999, 1000, 1001, 1001 + (mn or 62), 1500, 2400])
+        access = [[c1, lo_a, pos + rng.choice([0, 400, 3000])]]
+    else:
+        # minima stay at or below the guard 3/4 avg - 1 (above it: open finding, canonical corpus case only);
+        # (5000, 10^6): a minimum above every stretch -- nothing is binned at all
+        avg, mn = rng.choice([(1, None), (1, 0), (2, None), (2, 0), (3, 1), (3, None), (4, None), (4, 2), (5, 2),
+                              (4.5, 2), (1000.5, 700), (150000.25, None), (10 ** 6, None), (10 ** 7, 5 * 10 ** 5),
+                              (5000, 10 ** 6), (100, 74), (100, 1)])
+        small = avg < 50
+        lo_a = rng.choice([0, 3000])
+        span = rng.choice([1, 2, 3, 5, 7, 10, 25, 40]) if small else rng.choice([3000, 40000, 200000])
+        access = [[c1, lo_a, lo_a + 2 * MARGIN + span]]
+        if rng.random() < 0.5:
+            access.append([c1, lo_a + 2 * MARGIN + span + 2000, lo_a + 4 * MARGIN + 2 * span + 2000 + rng.randint(0, 30)])
+        far = lo_a + 6 * MARGIN + 3 * span + 10000
+        targets = [[c1, far, far + rng.choice([1, 100]), 'G']]
+        if not small and rng.random() < 0.5:
+            targets.append([c1, lo_a + MARGIN + span // 2, lo_a + MARGIN + span // 2 + 50, 'mid'])
+    if rng.random() < 0.15 and cls != 'avg-min-extremes':
+        access = None
+    job = {'kind': 'antitarget', 'targets': sort_table(targets), 'access': None if access is None else sort_table(access, False),
+           'avg': avg, 'min': mn, 'wide': cls}
+    return job
+
+
+GENE_POOL = ['GENEA', 'GENEB', 'TP53', 'BRCA1', 'A', 'ORF1', 'NOC2L', 'SAMD11', 'mRNA1', '-', 'A.1']
+
+
+def gen_annotation(rng, baits):
+    """a refFlat-like gene table around the baits: genes containing / overlapping / abutting / missing the
+    baits, several transcripts of one gene, genes on chromosomes without baits; sometimes no shared
+    chromosome name at all (ValueError expected)"""
+    chroms = []
+    for r in baits:
+        if r[0] not in chroms:
+            chroms.append(r[0])
+    rows = []
+    disjoint = rng.random() < 0.06
+    for c in chroms:
+        mine = [r for r in baits if r[0] == c]
+        if rng.random() < 0.15 and len(chroms) > 1:
+            continue                                       # a bait chromosome without any gene
+        for _ in range(rng.choice([1, 2, 3, 5, 8])):
+            b = rng.choice(mine)
+            how = rng.choice(['contain', 'overlap-left', 'overlap-right', 'abut-left', 'abut-right', 'inside', 'far', 'same'])
+            w = max(1, b[2] - b[1])
+            if how == 'contain':
+                a, e = b[1] - rng.randint(0, 2 * w), b[2] + rng.randint(0, 2 * w)
+            elif how == 'overlap-left':
+                a, e = b[1] - rng.randint(1, w + 5), b[1] + rng.randint(1, w)
+            elif how == 'overlap-right':
+                a, e = b[2] - rng.randint(1, w), b[2] + rng.randint(1, w + 5)
+            elif how == 'abut-left':
+                a, e = b[1] - rng.randint(1, w + 5), b[1]            # ends where the bait starts: no base shared
+            elif how == 'abut-right':
+                a, e = b[2], b[2] + rng.randint(1, w + 5)
+            elif how == 'inside':
+                a = rng.randint(b[1], b[1] + w - 1)
+                e = rng.randint(a + 1, b[1] + w)
+            elif how == 'far':
+                a = b[2] + rng.randint(1, 5 * w + 10)
+                e = a + rng.randint(1, w + 5)
+            else:
+                a, e = b[1], b[2]
+            a = max(1, a)
+            e = max(a + 1, e)
+            rows.append(['zz' + c if disjoint else c, a, e, rng.choice(GENE_POOL)])
+    if rng.random() < 0.3:
+        rows.append([rng.choice(['chr7', '7', 'chrUn_x']), 100, 900, 'OTHER'])
+    if not rows:
+        rows.append([chroms[0] if chroms else 'chr1', 1, 2, 'LONE'])
+    rng.shuffle(rows)
+    return rows
+
+
+def write_annotation(path, rows, fmt):
+    with open(path, 'w') as fh:
+        for i, (c, a, e, g) in enumerate(rows):
+            if fmt == 'refflat':
+                # refFlat: geneName name chrom strand txStart txEnd cdsStart cdsEnd exonCount exonStarts exonEnds
+                fh.write('%s\tNM_%06d\t%s\t%s\t%d\t%d\t%d\t%d\t1\t%d,\t%d,\n' % (g, i, c, '+-'[i % 2], a, e, a, e, a, e))
+            else:
+                fh.write('%s\t%d\t%d\t%s\n' % (c, a, e, g))
+
+
+def expected_labels(bins, annot):
+    """the property's annotation rule, by brute force: "-" without an overlapping annotation row, else
+    the distinct names of the rows sharing a base with the bin, in table order, joined by "," """
+    out = []
+    for r in bins:
+        names = []
+        for a in annot:
+            if a[0] == r[0] and a[1] < r[2] and r[1] < a[2] and a[3] not in names:
+                names.append(a[3])
+        out.append(','.join(names) if names else '-')
+    return out
+
+
+def run_annotation(ck, runner, scratch, jobs_t, cls='annotate'):
+    """do_target(..., annotate=<gene table file>) against the model (annotation through the C07
+    into_ranges model) and the brute-force label rule; number and coordinates of bins against the
+    code's own un-annotated run.  A job that already carries `annot` rows (corpus) keeps them."""
+    jobs, plain, reads = [], [], []
+    for i, j in enumerate(jobs_t):
+        if j.get('avg') is None:
+            continue
+        if 'annot' in j:
+            rows, fmt = j['annot'], j.get('annot_fmt', 'bed4')
+        else:
+            fmt = ck.rng.choice(['refflat', 'refflat', 'bed4'])
+            rows = gen_annotation(ck.rng, [r for r in j['baits']])
+        if not all(re.match(r'^\w+$', r[0]) for r in rows):
+            fmt = 'bed4'          # the refFlat sniffer only accepts word characters in the chromosome name
+        path = os.path.join(scratch, 'genes_%s%d.%s' % (cls.replace(':', '_'), i, 'txt' if fmt == 'refflat' else 'bed'))
+        write_annotation(path, rows, fmt)
+        k = dict(j)
+        k.update(kind='target_annot', annot_path=path, annot_fmt=fmt, annot=rows)
+        if 'index' not in k and cls == 'annotate':
+            ix = ck.rng.choice([None, None, 'gaps', 'permuted'])
+            if ix:
+                k['index'] = ix
+        jobs.append(k)
+        pj = {x: v for x, v in k.items() if x not in ('annot', 'annot_fmt', 'annot_path')}
+        pj['kind'] = 'target'
+        plain.append(pj)
+        reads.append({'kind': 'annot_read', 'annot_path': path})
+    outs = runner.map(jobs)
+    plains = runner.map(plain)
+    annots = runner.map(reads)
+    reqs = []
+    for j, an in zip(jobs, annots):
+        if isinstance(an, Err):
+            raise RuntimeError('the generated annotation file could not be read: %s' % an.msg)
+        avg = j['avg']
+        cuts = float_cuts(target_spans(j), avg, 0) if j['split'] else []
+        reqs.append([bool(j['split']), exact_num(avg), [mrow(r) for r in j['baits']], cuts, [mrow(r) for r in an]])
+    models = vlib.model_batch_parallel('c12_target_annot', reqs)
+    for j, out, pl, an, mod in zip(jobs, outs, plains, annots, models):
+        case = {x: v for x, v in j.items() if not x.endswith('_path')}
+        case['annot_read'] = an
+        ck.count(case, nontrivial=not isinstance(out, Err) and any(r[3] != '-' for r in out), cls=cls)
+        ck.cls('annotate:' + j['annot_fmt'])
+        if isinstance(pl, Err):
+            ck.violation('do_target raised %s on a valid input' % pl.msg, case, code=pl, clause='C12')
+            continue
+        shared = set(r[0] for r in pl) & set(a[0] for a in an)
+        if isinstance(out, Err):
+            if out.msg == 'ValueError' and pl and not shared:
+                # no shared chromosome name (compare_chrom_names): compared with the model's error
+                ck.cls('annotate:error-no-shared-chromosome')
+                if mod != out:
+                    ck.tie_break('model and code disagree on the annotation error', case, code=out, model=mod)
+                continue
+            ck.violation('do_target with annotate raised %s' % out.msg, case, code=out, clause='C12_annotate_coords')
+            continue
+        if not pl:
+            ck.cls('annotate:no-bin-left')
+        if [r[:3] for r in out] != [r[:3] for r in pl]:
+            ck.violation('annotation changed the number or coordinates of bins', case, code=[r[:3] for r in out],
+                         expected=[r[:3] for r in pl], clause='C12_annotate_coords')
+            continue
+        if not j['split'] and any(r[1] == r[2] for r in j['baits']):
+            ck.cls('annotate:after-zero-width-bait-dropped(row labels with gaps)')
+        if j.get('index'):
+            ck.cls('annotate:caller-row-labels-' + j['index'])
+        exp = expected_labels(out, an)
+        if [r[3] for r in out] != exp:
+            ck.violation('annotated labels are not the joined distinct names of the overlapping annotation rows', case,
+                         code=[r[3] for r in out], expected=exp, clause='C12_annotate_labels')
+            continue
+        if any(',' in e for e in exp):
+            ck.cls('annotate:several-genes-joined')
+        if any(e == '-' for e in exp):
+            ck.cls('annotate:no-overlap-default')
+        if ambiguous(j):
+            ck.float_ambiguous += 1
+            continue
+        m = mod if isinstance(mod, Err) else from_model(mod)
+        if m != out:
+            ck.tie_break('model do_target with annotation differs from the code', case, code=out, model=m)
+
+
+HASHSEED_SCRIPT = """import sys, json, warnings, logging
+warnings.filterwarnings('ignore')
+logging.disable(logging.CRITICAL)
+from cnvlib import target
+cases = json.load(open(sys.argv[1]))
+print(json.dumps([list(target.shorten_labels(c)) for c in cases]))
+"""
+
+
+def run_hash_orders(ck, scratch, jobs_l, cands):
+    """shorten_labels in fresh interpreters with different string-hash seeds (= different iteration orders
+    of the name sets): every emitted name must be a candidate of its position under every order, and
+    positions with a single candidate must not move (C12_labels_candidates / _deterministic_when)"""
+    cases = [j['labels'] for j in jobs_l]
+    cpath = os.path.join(scratch, 'labels.json')
+    spath = os.path.join(scratch, 'labels_run.py')
+    json.dump(cases, open(cpath, 'w'))
+    open(spath, 'w').write(HASHSEED_SCRIPT)
+    procs = []
+    for seed in ('1', '2', '3'):
+        env = dict(os.environ)
+        env['PYTHONHASHSEED'] = seed
+        env['PYTHONPATH'] = vlib.REPO
+        procs.append(subprocess.Popen([sys.executable, spath, cpath], env=env, stdout=subprocess.PIPE,
+                                      stderr=subprocess.PIPE))
+    results = []
+    for pr in procs:
+        o, e = pr.communicate(timeout=600)
+        if pr.returncode != 0:
+            raise RuntimeError('shorten_labels subprocess failed: %s' % e.decode()[-400:])
+        results.append(json.loads(o.decode()))
+    moved = 0
+    for idx, (labels, cs) in enumerate(zip(cases, cands)):
+        if isinstance(cs, Err):
+            continue
+        outs = [r[idx] for r in results]
+        case = {'kind': 'labels', 'labels': labels, 'hash_seeds': [1, 2, 3]}
+        bad = None
+        for o in outs:
+            if len(o) != len(labels):
+                bad = ('C12_labels', 'shorten_labels changes the number of labels', o)
+            elif any(x not in c for x, c in zip(o, cs)):
+                bad = ('C12_labels_candidates', 'an emitted name is not a shortest filtered name of its run', o)
+        if bad is None and any(len(c) == 1 and len(set(o[i] for o in outs)) != 1 for i, c in enumerate(cs)):
+            bad = ('C12_labels_deterministic_when', 'a position with a single candidate changes with the hash seed', outs)
+        ck.count(case, nontrivial=len(labels) > 1, cls='labels:hash-orders')
+        if bad:
+            ck.violation(bad[1], case, code=bad[2], expected=cs, clause=bad[0])
+            continue
+        if any(len(set(o[i] for o in outs)) > 1 for i in range(len(labels))):
+            moved += 1
+    ck.extra['labels_output_moved_with_hash_seed'] = moved
+
+
+def label_candidates(labels):
+    """the label rule restated with its literals (names split at ",", runs of labels sharing a name, names
+    starting with "mRNA" dropped when something else is left, shortest name, "DB|accession" cut to the
+    accession): per position the SET of names the rule allows (several when equally short names tie)"""
+    def filt(names):
+        if len(names) > 1:
+            ok = set(n for n in names if not n.startswith('mRNA'))
+            if ok:
+                return ok
+        return names
+
+    def cands(names):
+        f = filt(names)
+        m = min(len(n) for n in f)
+        return set((n.split('|')[-1] if len(n) > 2 and '|' in n[1:-1] else n) for n in f if len(n) == m)
+
+    result, curr, count = [], set(), 0
+    for lab in labels:
+        nxt = set(lab.rstrip().split(','))
+        ov = curr & nxt
+        if ov:
+            curr = filt(ov)
+            count += 1
+        else:
+            if count:
+                result += [cands(curr)] * count
+            count, curr = 1, nxt
+    if count:
+        result += [cands(curr)] * count
+    return result
+
+
+def run_unsorted(ck, runner, jobs_t):
+    """do_target --split on bait tables that are NOT in genomic order (rows shuffled): the whole-table fast
+    path of merge keeps the table order, the slow path re-orders the chromosome groups by key whatever
+    the input order (C12_block_order_slow_path); model against code on both"""
+    jobs = []
+    for j in jobs_t:
+        if not j['split'] or j.get('avg') is None or len(j['baits']) < 2:
+            continue
+        k = dict(j)
+        b = list(j['baits'])
+        ck.rng.shuffle(b)
+        k['baits'] = b
+        jobs.append(k)
+    outs = runner.map(jobs)
+    models = vlib.model_batch_parallel('c12_target', [model_request(j)[1] for j in jobs])
+    for j, out, mod in zip(jobs, outs, models):
+        case = dict(j)
+        ck.count(case, nontrivial=True, cls='target:unsorted-input')
+        if isinstance(out, Err):
+            ck.violation('do_target raised %s on an unsorted bait table' % out.msg, case, code=out, clause='C12')
+            continue
+        rows = [r for r in j['baits'] if r[1] != r[2]]
+        cmax, fast = None, True
+        for r in rows:                      # (start[1:] - end.cummax()[:-1] > 0).all() over the whole table
+            if cmax is not None and not r[1] - cmax > 0:
+                fast = False
+            cmax = r[2] if cmax is None else max(cmax, r[2])
+        keys = [sorter_key(r[0]) for r in out]
+        if not fast:
+            ck.cls('target:unsorted-input:slow-path')
+            if any(a > b for a, b in zip(keys, keys[1:])):
+                ck.violation('slow path of merge: chromosome keys decrease along the output', case, code=out,
+                             clause='C12_block_order_slow_path')
+                continue
+        else:
+            ck.cls('target:unsorted-input:fast-path(table order kept)')
+        if ambiguous(j):
+            ck.float_ambiguous += 1
+            continue
+        m = mod if isinstance(mod, Err) else from_model(mod)
+        if m != out:
+            ck.tie_break('model do_target differs from the code on an unsorted bait table', case, code=out, model=m)
+
+
+def check_keys(names):
+    """the restated sorter_chrom must agree with the Coq model's chrom_key (infrastructure consistency)"""
+    names = sorted(set(names))
+    res = vlib.model_batch('c12_chrom_key', names)
+    for c, r in zip(names, res):
+        if isinstance(r, Err) or (r[0], r[1]) != sorter_key(c):
+            raise RuntimeError('sorter key of %r: harness %r, Coq model %r' % (c, sorter_key(c), r))
 
 
 LABEL_POOL = ['ref|GENE1', 'ref|GENE2', 'mRNA|AF161376', 'mRNA|JX093079', 'ens|ENST00000342066', 'ccds|CCDS3.1',
@@ -759,8 +1228,20 @@ def evaluate(ck, jobs, outs, models, cls):
                 ck.violation('shorten_labels changes the number of labels', case, code=out, expected=len(labels),
                              clause='C12_labels')
                 continue
+            want = label_candidates(labels)
+            if any(o not in w for o, w in zip(out, want)):
+                ck.violation('shorten_labels emits a name that is not a shortest filtered name shared by its run of labels',
+                             case, code=out, expected=[sorted(w) for w in want], clause='C12_labels_candidates')
+                continue
             if isinstance(mod, Err) or len(mod) != len(out) or any(o not in m for o, m in zip(out, mod)):
                 ck.tie_break('model shorten_labels candidates do not contain the code\'s names', case, code=out, model=mod)
+            elif all(len(m) == 1 for m in mod):
+                ck.cls('labels:deterministic(single candidate everywhere)')
+                if [m[0] for m in mod] != out:
+                    ck.tie_break('model shorten_labels (deterministic case) differs from the code', case, code=out,
+                                 model=[m[0] for m in mod])
+            else:
+                ck.cls('labels:order-dependent(some position has several candidates)')
             continue
         is_target = 'baits' in job
         if is_target:
@@ -840,18 +1321,6 @@ def extra_checks(ck, runner, scratch, jobs_t, jobs_a):
         k = dict(j)
         k['short'] = True
         more.append((j, k))
-        ap = os.path.join(scratch, 'annot%d.bed' % i)
-        genes = []
-        for n_r, r in enumerate(r for r in j['baits'] if r[1] != r[2]):
-            # every chromosome with a non-empty bait is annotated (compare_chrom_names demands a shared name)
-            if n_r % 2 == 0 or not any(g[0] == r[0] for g in genes):
-                genes.append([r[0], max(0, r[1] - 10), r[2] + 10, 'ANN%d' % (len(genes) % 3)])
-        if genes:
-            write_bed(ap, sort_table(genes))
-            k2 = dict(j)
-            k2['kind'] = 'target_annot'
-            k2['annot_path'] = ap
-            more.append((j, k2))
     base = runner.map([a for a, _ in more])
     vari = runner.map([b for _, b in more])
     for (j, k), o1, o2 in zip(more, base, vari):
@@ -912,18 +1381,41 @@ def run(ck, scratch):
                       'regime is entered only by the canonical corpus case of the finding ' + KNOWN_MIN_SIG +
                       '; where no targeted contig is canonically named the direct oracle (contigs kept = targeted or '
                       'canonically named) is applied to the canonical corpus case of ' + NAME_LENGTH_SIG + ' only')
+    ck.rule += ('; wide antitarget stream: targets on contigs absent from the access table, access rows shorter than 2 * 500, '
+                'baits abutting / straddling access edges (offsets 0, +-1, +-500, +-501, +-1000, +-1001), 15..60 tiny baits inside '
+                'one access row, averages 1, 2, 3, 4.5, 1000.5, 150000.25, 10^6, 10^7 and minima 0 / at the guard / above every '
+                'stretch; annotation stream: refFlat and BED4 gene tables built around the baits (containing, overlapping, '
+                'abutting, nested, far, repeated names, bait chromosomes without genes, no shared chromosome name), read back '
+                'through tabio.read_auto; label shortening also in fresh interpreters with PYTHONHASHSEED 1, 2, 3')
     ck.unproved_remainder = [
         'float cut points of subdivide: int(i * (span / nbins)) is an oracle; its contract is checked on every supplied point',
-        'round(span / avg) for a non-integer avg (the 200 / 0.75 default): exact in the model, float near-ties counted float_ambiguous',
-        'which of several equally short names shorten_labels picks (set iteration order): the model returns the candidate set',
-        'annotation (into_ranges) rewrites only the gene column: sampled on the code, proved in C07',
-        'order of the chromosome blocks in the output (sorter_chrom order after a merge, table order on the fast path): '
-        'modelled exactly and compared model-vs-code, the theorems speak per chromosome',
-        'upper size bound 1.5 x avg is proved for avg >= 4 (cut points are only known to within one base), the lower bound under '
-        'min <= 3/4 avg - 1 or min <= 0 (C12_anti_min_refuted otherwise: open finding ' + KNOWN_MIN_SIG + ')',
+        'round(span / avg) in floating point: the model computes round-half-even of the exact rational quotient '
+        '(C12_nbins_round); the float quotient changes the count only when it lands exactly on a tie k + 1/2 the exact '
+        'quotient is not on (C12_nbins_float, for every monotone rounding that fixes half-integers; that IEEE division is '
+        'one is checked on every supplied point, not proved): exactly those cases are counted float_ambiguous, and there the '
+        'code is compared with round-half-even of the float quotient instead of with the model',
+        'which of several equally short names shorten_labels picks depends on the iteration order of a Python set of str '
+        '(string hashing, PYTHONHASHSEED): C12_labels_candidates holds for every choice, C12_labels_deterministic_when '
+        'covers the positions with a single candidate, C12_labels_order_dependent shows the dependence is real; the choice '
+        'itself is not modelled',
+        'annotation: C12_annotate_labels needs the bin table\'s chromosomes contiguous (C07 `grouped`); proved for do_target '
+        'on sorted baits whose distinct names have distinct sort keys (C12_annotate_grouped, C12_annotate_do_target); a bait '
+        'table mixing names with equal keys (chr1 and 1) is outside; the annotation reader (tabio.read_auto: refFlat '
+        'start - 1, sorting) belongs to C08 and its output is taken as given (per chromosome sorted, proper rows)',
+        'order of the chromosome blocks: proved (C12_block_order*) for key order on either path of merge and for genomic '
+        'order when distinct names have distinct sort keys; a table mixing e.g. chr1 and 1 (equal keys) is outside',
+        'size clause (at most 1.5 x average) is claimed for integer averages and averages >= 4: proved for avg >= 4 '
+        '(C12_anti_sizes), every integer avg >= 2 (C12_anti_sizes_upper), avg = 1 given exact cuts of evenly dividing '
+        'stretches (C12_anti_sizes_avg1), in general max(3/2 avg, 5/4 avg + 1); false for small non-integer averages '
+        '(C12_anti_sizes_small_avg_refuted: avg 6/5, bins of 1 and 2 bases) -- generators keep to the claimed domain; the '
+        'lower bound under min <= 3/4 avg - 1 or min <= 0 (C12_anti_min_refuted otherwise: open finding ' + KNOWN_MIN_SIG + ')',
         'contig rule when no targeted contig is canonically named: the code keeps untargeted contigs whose name is not longer than '
         'the longest targeted name (C12_contigs_code_rule; C12_contigs_name_length_refuted; open finding ' + NAME_LENGTH_SIG +
         '): there the direct oracle is applied to the canonical corpus case only, random cases are compared model-vs-code',
+        'source ties: `min_bin_size` is read as an integer (0 = not given) because the function translator cannot merge an '
+        'Optional parameter with an integer re-assignment; `int(round(span / avg_size)) or 1` is tied through its operand '
+        '(no value-level `or` in the translator; the `or 1` shape is checked by the spec); loops of _split_targets and '
+        'guess_chromosome_regions (no scalar arithmetic beyond the TELOMERE_SIZE constant) stay with the correspondence',
     ]
     if not ck.build_status.get('driver_ok'):
         raise RuntimeError('model driver unavailable')
@@ -932,7 +1424,8 @@ def run(ck, scratch):
     try:
         # 1. corpus
         cj = corpus_jobs()
-        run_batch(ck, runner, cj, 'corpus')
+        run_batch(ck, runner, [j for j in cj if j['kind'] != 'target_annot'], 'corpus')
+        run_annotation(ck, runner, scratch, [j for j in cj if j['kind'] == 'target_annot'], cls='corpus:annotate')
         # 2. exhaustive tiny scope
         max_b = 2 if quick else 3
         tiny_t, tiny_a = [], []
@@ -944,6 +1437,15 @@ def run(ck, scratch):
                                         '%d tables x {do_target --split avg 300, do_antitarget access chr1:0-%d avg 400 min 250}'
                                         % (max_b, len(tiny_t), acc_tiny[0][2]))
         ck.exhaustive = True
+        # the float-ambiguous (span, avg) pairs of the default target average 200 / 0.75, listed exactly
+        davg = 200 / 0.75
+        amb_spans = [sp for sp in range(1, 100001) if nbins_exact(sp, davg)[1]]
+        ck.extra['float_ambiguous_spans_default_avg'] = {
+            'avg': repr(davg), 'spans_up_to': 100000, 'count': len(amb_spans), 'first': amb_spans[:25],
+            'rule': 'span / avg rounds (IEEE) exactly onto k + 1/2 while the exact quotient is not a tie; none for an integer avg'}
+        bad = [sp for sp in amb_spans if sp % 400 != 0]
+        if bad:
+            raise RuntimeError('float-ambiguous span of the default average that is not a multiple of 400: %r' % bad[:5])
         run_batch(ck, runner, tiny_t, 'tiny:target')
         run_batch(ck, runner, tiny_a, 'tiny:antitarget')
         # 3. random streams
@@ -961,6 +1463,28 @@ def run(ck, scratch):
                 ck.cls('contigs:targeted-or-canonical-rule')
         run_batch(ck, runner, jobs_t, 'target')
         run_batch(ck, runner, jobs_l, 'labels')
+        # 3b. wider antitarget situations
+        n_w = 260 if quick else 6000
+        jobs_w = [gen_antitarget_wide(ck.rng) for _ in range(n_w)]
+        for lo in range(0, len(jobs_w), 2000):
+            run_batch(ck, runner, jobs_w[lo:lo + 2000], 'antitarget:wide')
+        for j in jobs_w:
+            ck.cls('wide:' + j['wide'])
+        run_unsorted(ck, runner, jobs_t[:120 if quick else 3000])
+        # 3c. annotation from refFlat-like gene tables
+        n_an = 150 if quick else 3000
+        run_annotation(ck, runner, scratch, [j for j in jobs_t if j.get('avg') is not None][:n_an])
+        # 3d. label shortening under different set iteration orders
+        n_h = 120 if quick else 1500
+        cands = vlib.model_batch('c12_shorten', [j['labels'] for j in jobs_l[:n_h]])
+        run_hash_orders(ck, scratch, jobs_l[:n_h], cands)
+        dets = vlib.model_batch('c12_shorten_det', [j['labels'] for j in jobs_l[:n_h]])
+        for cs, ds in zip(cands, dets):
+            if not isinstance(cs, Err) and [c[0] if len(c) == 1 else None for c in cs] != ds:
+                raise RuntimeError('c12_shorten_det disagrees with c12_shorten')
+        # the restated chromosome sort key against the Coq model
+        check_keys([r[0] for j in jobs_a + jobs_w for r in j['targets'] + (j['access'] or [])] +
+                   [r[0] for j in jobs_t for r in j['baits']])
         # 4. short names / annotation / CLI helpers on a sample
         k = 40 if quick else 400
         extra_checks(ck, runner, scratch, jobs_t[:k], jobs_a[:k])
